@@ -149,7 +149,7 @@ def cmp_cases(rnd, n):
     """comparison functions on operands longer than the TLC arena: a late difference, case pairs, a missing terminator with the operand
     flush against the end of the arena (reading one element more faults)"""
     out = []
-    for fn, w, hass in (("strcmp_s", 1, 0), ("strcasecmp_s", 1, 0), ("wcscmp_s", 4, 1), ("wcsncmp_s", 4, 1), ("wcsicmp_s", 4, 1)):
+    for fn, w, hass in (("strcmp_s", 1, 0), ("strcasecmp_s", 1, 0), ("wcscmp_s", 4, 1), ("wcsncmp_s", 4, 1), ("wcsicmp_s", 4, 1), ("wcscoll_s", 4, 1)):
         for _ in range(n):
             L = rnd.randint(3, 12)
             base = [rnd.choice([97, 65, 98, 66]) for _ in range(L)]
